@@ -187,7 +187,7 @@ TFrameH == UNCHANGED <<l, done, wpend, callow, pmust, pmay, pgmu, pgma, tagsSeen
 THidden(c) ==
     \/ /\ Snapshot(c) \/ Probe(c) \/ Flight(c) \/ (hk[c] = 0 /\ Install(c))
        /\ TFrame
-    \/ /\ pc[c].st = "scan" /\ hk[c] = 0 /\ pc[c].ndb < GeFrom(c, l).db
+    \/ /\ pc[c].st = "scan" /\ hk[c] = 0
        /\ Scan(c)
        /\ hk' = [hk EXCEPT ![c] = 1]
        /\ TFrameH
@@ -224,7 +224,6 @@ TRead(c) ==
                                ![c].tags = IF shared THEN entry[k].taint ELSE pc[c].etag]
            /\ UNCHANGED hk
         \/ /\ ~pc[c].spilled /\ kind = "large"     \* Streaming: the store is scanned now
-           /\ pc[c].ndb < GeFrom(c, l).db
            /\ r = (db[k] \ pc[c].sr) \cup pc[c].sa
            /\ pc' = [pc EXCEPT ![c].st = "done", ![c].res = r, ![c].tags = pc[c].stag, ![c].ndb = @ + 1]
            /\ hk' = [hk EXCEPT ![c] = 1]
